@@ -720,8 +720,12 @@ def run_lists(ctx: Ctx, info):
             if min(probs) < 0 or tot > 1 + F(tol) or (kind in ("prob", "gdepol") and tot < 1 - F(1, 10 ** 12)):
                 key, what = f"{meta['factory']}.weights", f"weights {probs[:6]} are not a distribution (sum {float(tot)!r})"
         if key is None and kind == "prob":
+            dim = 2 ** val.qubit_count
             for m in val.gate_matrices:
                 a = np.array(m, dtype=float)
+                if a.shape != (dim, dim):
+                    key, what = "ProbabilisticNoise.shape", f"a mixture operator of shape {a.shape} on {val.qubit_count} qubits (must be {dim}×{dim})"
+                    break
                 if np.max(np.abs(a.T @ a - np.eye(len(a)))) > 1e-12:
                     key, what = "ProbabilisticNoise.unchecked", "a non-unitary gate matrix is accepted"
         if key is None and kind == "kraus":
